@@ -81,6 +81,18 @@ def plan(rng, tier):
     elif rng.random() < 0.5:
         out.extend(g.fill(rng.randint(0, dom.nkeys)))
         out.append(["commit"])
+    if not pre and rng.random() < 0.15:
+        # several leaves, commit, shrink to one or two keys, commit: the
+        # remaining leaf has a record of its own; then go on
+        out.extend(g.fill(rng.randint(dom.nkeys // 2, dom.nkeys)))
+        out.append(["commit"])
+        ks = g.model.skeys()
+        rng.shuffle(ks)
+        for k in ks[rng.randint(1, 2):]:
+            op = ["del" if g.mapping else "remove", k]
+            g.model.apply(op)
+            out.append(op)
+        out.append(["commit"])
     committed = dict(g.model.d)
     n = rng.randint(15, 70) if tier == "quick" else rng.choice(
         [30, 60, 120, 200])
